@@ -278,6 +278,7 @@ def check_guarded(F, rep, R, cg, bodies):
                       "the result of %s (line %d) is not propagated with `?`: a missing include would not fail the load" % (t.get("f") or t["tf"], t["l"]),
                       "%s:%d" % (b.file, t["l"]))
     run_r7(F, rep, rep.tier)
+    run_r8(F, rep)
 
 
 def run_r7(F, rep, tier="quick"):
@@ -326,3 +327,46 @@ def run_r7(F, rep, tier="quick"):
     rep.check(not wrong, "C20-R7", "fence-close-table" if not wrong else "fence-close-table:%d-of-%d-wrong" % (len(wrong), n),
               "is_code_fence_close decides %d of %d (marker, length) combinations wrongly, e.g. %s: a fence closes early or never, so include tokens inside code are expanded or tokens after the fence are left alone" % (len(wrong), n, "; ".join(wrong[:3])),
               "is_code_fence_close (src/mechfs.rs)", sample={"combinations": n, "guards": [render(g) for g in guards]})
+
+
+def run_r8(F, rep):
+    """C20-R8: the token expander examines every line of the chunk it is given"""
+    from lib.facts import find, walk, is_node, path_of, render
+    rep.rule("C20-R8", "expand_mechdown_include_tokens examines every line: its only Ok exit follows the loop over all lines of the chunk and returns the accumulator that loop fills "
+                       "(no early `return Ok(..)` before the loop, no Ok return or break inside it - a pre-filter that passes a chunk through unexamined leaves include lines unexpanded "
+                       "and cycles / missing targets behind them undetected); the stand-alone-line test is standalone_braced_content on each line")
+    fns = [it for c in ("mech.lib", "mech.bin") for it in F.syn(c) if it["k"] == "fn" and it["name"] == "expand_mechdown_include_tokens"]
+    if not rep.check(len(fns) >= 1, "C20-R8", "anchor:expand_mechdown_include_tokens", "expand_mechdown_include_tokens not found"):
+        return
+    it = fns[0]
+    body = it["body"]
+    params = [p[0][1] for p in it["sig"]["inputs"] if is_node(p[0]) and p[0][0] == "pident"]
+    src = params[0] if params else "source"
+    loops = [(i, st[1]) for i, st in enumerate(body) if st[0] == "expr" and is_node(st[1]) and st[1][0] == "for"
+             and any(n[0] == "path" and n[1] == src for n in walk(st[1][2])) and re.search(r"split_inclusive|lines|split\(", render(st[1][2]))]
+    if not rep.check(len(loops) == 1, "C20-R8", "anchor:line-loop", "expected one top-level loop over the lines of `%s`, found %d" % (src, len(loops))):
+        return
+    li, loop = loops[0]
+
+    def ok_returns(node):
+        out = []
+        for n in walk(node):
+            if n[0] == "ret" and n[1] is not None and re.match(r"^Ok\(", render(n[1])):
+                out.append(render(n[1])[:50])
+        return out
+    early = [r for st in body[:li] for r in ok_returns(st)]
+    rep.check(not early, "C20-R8", "no-ok-exit-before-line-loop" if not early else "ok-exit-before-line-loop:%s" % re.sub(r"\W+", "-", early[0])[:40],
+              "expand_mechdown_include_tokens returns %s before looking at the lines of the chunk: include lines the shortcut's test does not recognise (the per-line test trims the line first, so "
+              "an indented `  {b.mec}` is an include) stay literal text, and a cycle or a missing file behind them is accepted" % early, "expand_mechdown_include_tokens (mech)")
+    inside = ok_returns(loop[3]) + ["break" for n in walk(loop[3]) if n[0] == "break"]
+    rep.check(not inside, "C20-R8", "line-loop-runs-to-the-end" if not inside else "line-loop-left-early:%s" % re.sub(r"\W+", "-", inside[0])[:30],
+              "the line loop of expand_mechdown_include_tokens can be left by %s before the last line: later include lines are not expanded" % inside, "expand_mechdown_include_tokens (mech)")
+    acc = {render(m[1]) for m in find(loop[3], "mcall") if m[2] in ("push_str", "push", "extend")}
+    tail = body[-1]
+    tail_e = tail[1] if tail[0] == "expr" else None
+    ret_ok = is_node(tail_e) and tail_e[0] == "call" and path_of(tail_e[1]) == "Ok" and tail_e[2] and render(tail_e[2][0]) in acc
+    rep.check(bool(ret_ok), "C20-R8", "returns-the-accumulator", "the final value of expand_mechdown_include_tokens is `%s`, not the buffer the line loop fills (%s)" % (
+        render(tail_e)[:40] if tail_e is not None else "?", sorted(acc)), "expand_mechdown_include_tokens (mech)")
+    per_line = [c for c in find(loop[3], "call") if (path_of(c[1]) or "").endswith("standalone_braced_content")]
+    rep.check(len(per_line) == 1, "C20-R8", "per-line-test:standalone_braced_content", "the line loop does not apply standalone_braced_content to each line (%d calls)" % len(per_line),
+              "expand_mechdown_include_tokens (mech)")
